@@ -79,8 +79,8 @@ theorem incr_consistent (S S' : RuleSys N V) (σ₀ σ₁ : N → V) (J chain : 
     have := hreads m hm
     rw [run_not_mem S' chain σ₁ m this.2, hin m this.1]
 
-/-- Uniqueness of the consistent state given the inputs, when reads are well-founded. -/
 omit [DecidableEq N] in
+/-- Uniqueness of the consistent state given the inputs, when reads are well-founded. -/
 theorem consistent_unique (S : RuleSys N V) (rk : N → Nat)
     (wf : ∀ n, S.isCalc n = true → ∀ m ∈ S.reads n, rk m < rk n)
     (σ σ' : N → V) (hσ : Consistent S σ) (hσ' : Consistent S σ')
